@@ -8,21 +8,24 @@
 (*   adapter kinds  "pass" | "pushb" (must be notified by pushes) | "nobr"   *)
 (*         (NoBranchAdapter) | "timead" (no-branch + push-based: the time    *)
 (*         adapters) | "delay" (ITimeDelayAdapter, pass-through otherwise)   *)
+(*         | "topull" (finam's DelayToPull: a delay that is no-branch)        *)
 (*   leaf  "pull" (Input) | "push" (CallbackInput) | "static" (static Input) *)
 (*         | "pushstatic" (static CallbackInput)                              *)
 (*   srcIn / leafIn: the owning component is part of the composition         *)
 (*   unconn: the first consumer has a further input that is left unconnected *)
 EXTENDS FinamBase, TLC
 
-AdKinds == {"pass", "pushb", "nobr", "timead", "delay"}
+AdKinds == {"pass", "pushb", "nobr", "timead", "delay", "topull"}
 LeafKinds == {"pull", "push", "static", "pushstatic"}
 SrcKinds == {"push", "pull", "static"}
 ChainsUpTo(n) == UNION {[1..k -> AdKinds] : k \in 0..n}
 
 NeedsPush(a) == a \in {"pushb", "timead"}
-NoBranch(a) == a \in {"nobr", "timead"}
+NoBranch(a) == a \in {"nobr", "timead", "topull"}
 
-Br(at, ch, leaf) == [at |-> at, chain |-> ch, leaf |-> leaf]
+(* lin: the component that owns the branch's leaf is part of the composition *)
+Br(at, ch, leaf) == [at |-> at, chain |-> ch, leaf |-> leaf, lin |-> TRUE]
+BrOut(at, ch, leaf) == [at |-> at, chain |-> ch, leaf |-> leaf, lin |-> FALSE]
 Topo(src, srcIn, chain, leaf, leafIn, brs, unconn) ==
   [src |-> src, srcIn |-> srcIn, chain |-> chain, leaf |-> leaf, leafIn |-> leafIn, brs |-> brs, unconn |-> unconn]
 
@@ -36,12 +39,19 @@ Branched(n) ==
   {t \in {Topo(s, TRUE, ch, lf, TRUE, <<Br(b, c2, l2)>>, FALSE) :
             s \in SrcKinds, ch \in ChainsUpTo(n), lf \in LeafKinds, b \in 0..n,
             c2 \in ChainsUpTo(1), l2 \in LeafKinds} : t.brs[1].at <= Len(t.chain)}
+(* a forgotten (linked but not listed) consumer on one of two branches, in both creation orders *)
+BranchedOut(n) ==
+  {t \in {Topo("push", TRUE, ch, "pull", TRUE, IF swap THEN <<BrOut(b2, c3, "pull"), Br(b1, c2, "pull")>> ELSE <<Br(b1, c2, "pull"), BrOut(b2, c3, "pull")>>, FALSE) :
+            ch \in ChainsUpTo(n), b1 \in 0..n, c2 \in {<<>>, <<"pass">>}, b2 \in 0..n, c3 \in {<<>>, <<"pass">>}, swap \in BOOLEAN} :
+     \A k \in 1..2 : t.brs[k].at <= Len(t.chain)} \cup
+  {t \in {Topo("push", TRUE, ch, "pull", TRUE, <<BrOut(b, c2, "pull")>>, FALSE) : ch \in ChainsUpTo(n), b \in 0..n, c2 \in ChainsUpTo(1)} :
+     t.brs[1].at <= Len(t.chain)}
 Branched2(n) ==
   {t \in {Topo(s, TRUE, ch, "pull", TRUE, IF swap THEN <<Br(b2, c3, "pull"), Br(b1, c2, l2)>> ELSE <<Br(b1, c2, l2), Br(b2, c3, "pull")>>, FALSE) :
             s \in {"push", "pull"}, ch \in ChainsUpTo(n) \ {<<>>}, b1 \in 0..n, c2 \in {<<>>, <<"pass">>, <<"timead">>}, l2 \in {"pull", "push"},
             b2 \in 0..n, c3 \in {<<>>, <<"timead">>, <<"nobr">>}, swap \in BOOLEAN} :
      \A k \in 1..2 : t.brs[k].at <= Len(t.chain)}
-Cases(n) == Single(n) \cup Branched(n) \cup Branched2(n - 1)
+Cases(n) == Single(n) \cup Branched(n) \cup Branched2(n - 1) \cup BranchedOut(n - 1)
 
 Leaves == {"pull", "push", "static", "pushstatic"}
 IsStaticLeaf(l) == l \in {"static", "pushstatic"}
@@ -58,7 +68,7 @@ StaticMismatch(src, leaf) == IsStaticLeaf(leaf) /\ src # "static"
 (* the five rules of the statement *)
 RuleUnconnected(t) == t.unconn
 RuleStatic(t) == StaticMismatch(t.src, t.leaf) \/ \E k \in 1..NBr(t) : StaticMismatch(t.src, t.brs[k].leaf)
-RuleMissing(t) == ~t.srcIn \/ ~t.leafIn
+RuleMissing(t) == ~t.srcIn \/ ~t.leafIn \/ \E k \in 1..NBr(t) : ~t.brs[k].lin
 (* a node with two or more targets that is, or lies downstream of, a no-branch adapter *)
 FanOutAt(t, k) == Cardinality({x \in 1..NBr(t) : t.brs[x].at = k}) >= 1
 RuleBranch(t) == \E k \in 1..Len(t.chain) : FanOutAt(t, k) /\ \E j \in 1..k : NoBranch(t.chain[j])
